@@ -55,8 +55,11 @@ type cfgSpec struct {
 	SaltHint int      // start of the seed search
 	Family   string   // configurations of one family are EPOCHS of one chain: same validator main keys, one verifier engine (its caches
 	// live across them); the driver verifies their headers in configuration order within one process
-	Rekeyed   []int     // validators whose BLS key differs between the two epochs of the family
-	Gen       int       // BLS key generation the rekeyed validators have REGISTERED in this configuration (0 / 1)
+	Rekeyed  []int // validators whose BLS key differs between the two epochs of the family
+	Gen      int   // BLS key generation the rekeyed validators have REGISTERED in this configuration (0 / 1)
+	BlsOff   bool  // the protocol version in force has EnableBls = false (ECDSA signature per vote, no aggregate)
+	Newcomer int64 // > 0: the chain's CURRENT validator set is the look-back set plus validator nv+1 (online chamber, this stake),
+	// registered after the look-back block; descriptions may make the look-back trie unreadable
 	CertRound bool      // the header under verification is at a certificate round (multiple of params.ACoCHTFrequency)
 	CVals     []valSpec // the CERTIFICATE look-back validator set (same identities, other stakes / status / kind)
 	ProtoC    uint64    // CertValThreshold of the version in force
@@ -113,6 +116,10 @@ func configs() []cfgSpec {
 			CertRound: true, CVals: cn, ProtoC: 24, CVoters: []int{1, 2, 4}, SaltHint: 4},
 		// two epochs of one chain, verified by ONE engine in this order: in E2 validator 1 has re-registered with the same main key and a
 		// new BLS key, validators 2 and 3 have swapped stakes
+		// a protocol version without BLS: every precommit carries its own ECDSA signature
+		{Name: "ecdsa-A", Vals: a, ProtoV: 9, ProtoP: 9, Ths: []uint64{9, 1, 4, 12}, Voters: []int{1, 2}, Prop: 1, BlsOff: true},
+		// the current validator set differs from the look-back set: a newcomer with a large stake registered after the look-back block
+		{Name: "lookback-U", Vals: a, ProtoV: 9, ProtoP: 9, Ths: []uint64{9, 1, 4, 12}, Voters: []int{1, 2}, Prop: 1, Newcomer: 60, Natural: true},
 		{Name: "epoch-E1", Family: "E", Vals: a, ProtoV: 9, ProtoP: 9, Ths: []uint64{9, 1, 4, 12}, Voters: []int{1, 2}, Prop: 1, Rekeyed: []int{1}, Gen: 0},
 		{Name: "epoch-E2", Family: "E", Vals: e2, ProtoV: 9, ProtoP: 9, Ths: []uint64{9, 1, 4, 12}, Voters: []int{1, 3}, Prop: 1, Rekeyed: []int{1}, Gen: 1},
 	}
@@ -124,13 +131,20 @@ type stubChain struct {
 	yp      *params.YouParams
 	headers map[uint64]*types.Header
 	sdb     state.Database
+	gone    map[common.Hash]bool // validator tries this node cannot read (pruned / fast-synced)
+	current *types.Header        // CurrentHeader (nil: the genesis header)
 }
 
 func (c *stubChain) VersionForRound(uint64) (*params.YouParams, error) { return c.yp, nil }
 func (c *stubChain) VersionForRoundWithParents(uint64, []*types.Header) (*params.YouParams, error) {
 	return c.yp, nil
 }
-func (c *stubChain) CurrentHeader() *types.Header { return c.headers[0] }
+func (c *stubChain) CurrentHeader() *types.Header {
+	if c.current != nil {
+		return c.current
+	}
+	return c.headers[0]
+}
 func (c *stubChain) GetHeader(h common.Hash, n uint64) *types.Header {
 	if x := c.headers[n]; x != nil && x.Hash() == h {
 		return x
@@ -149,6 +163,9 @@ func (c *stubChain) GetHeaderByHash(h common.Hash) *types.Header {
 func (c *stubChain) GetBlock(common.Hash, uint64) *types.Block { return nil }
 func (c *stubChain) GetBlockByNumber(uint64) *types.Block      { return nil }
 func (c *stubChain) GetVldReader(valRoot common.Hash) (state.ValidatorReader, error) {
+	if c.gone[valRoot] {
+		return nil, fmt.Errorf("missing trie node %x (validator trie pruned)", valRoot[:8])
+	}
 	return state.NewVldReader(valRoot, c.sdb, false)
 }
 func (c *stubChain) GetAcReader() rawdb.AcReader       { return nil }
@@ -186,7 +203,10 @@ type world struct {
 	csalt    int
 	bls2     []*fixture.Key // second-generation BLS keys (only the BLS part is used)
 	T        int            // index of the description being verified (sampling)
-	honest   *types.Header  // the honest header of the configuration (what the chain stores in the "known" variants)
+	useat    [][][][][]int  // seat table of validators 1..nv+1 under the CURRENT set (Newcomer configurations)
+	urealIdx []uint32       // list positions in the current set
+	utotal   *big.Int
+	honest   *types.Header // the honest header of the configuration (what the chain stores in the "known" variants)
 }
 
 // engines: one verifier engine per family (epochs of one chain share the engine and therefore its caches)
@@ -238,6 +258,9 @@ func newWorld(id int, cfg cfgSpec) (*world, error) {
 	if !yp.EnableBls {
 		return nil, fmt.Errorf("fixture expects a BLS-enabled protocol version")
 	}
+	// the stub chain hands THIS copy to the verifier (VersionForRound...), so a version without BLS needs no change of params.Versions
+	yp.EnableBls = !cfg.BlsOff
+	w.utotal = big.NewInt(chamberOnline(cfg.Vals) + cfg.Newcomer)
 	// the look-back seeds are searched (credentials depend on keys and seed only) before the states are built
 	w.total = big.NewInt(chamberOnline(cfg.Vals))
 	w.ctotal = big.NewInt(chamberOnline(cfg.CVals))
@@ -247,6 +270,13 @@ func newWorld(id int, cfg cfgSpec) (*world, error) {
 			return nil, fmt.Errorf("no look-back seed gives the honest committee of %s the required pattern", cfg.Name)
 		}
 		w.setSeeds(salt, 0)
+		if cfg.Newcomer > 0 {
+			// the newcomer alone reaches the quorum with the seats the CURRENT set gives it, and is a proposer there
+			if int64(w.useats(w.nv+1, cfg.ProtoV, 1, stepPrecommit, 1)) >= int64(cfg.ProtoV)*685/1000 && w.useats(w.nv+1, cfg.ProtoP, 1, stepProposal, 1) > 0 {
+				break
+			}
+			continue
+		}
 		if !cfg.Natural || ((!cfg.Tail || w.anyTail()) && w.honestQuorum() && (!cfg.Tail || w.tailVoter() > 0)) {
 			break
 		}
@@ -397,6 +427,31 @@ func (w *world) build(yp *params.YouParams) error {
 		return err
 	}
 	w.round, w.parent, w.seedHdr, w.cvld, w.crealIdx = big.NewInt(1), w.genesis, w.genesis.Header(), w.vld, w.realIdx
+	w.chain.gone = map[common.Hash]bool{}
+	if cfg.Newcomer > 0 {
+		// the CURRENT validator set: a third state in the same database; the stub's CurrentHeader carries its root
+		gu := *g
+		gu.Validators = w.genesisValidators(cfg.Vals)
+		k := w.keys[w.nv+1]
+		gu.Validators[k.Addr] = core.GenesisValidator{Name: "newcomer", OperatorAddress: k.Addr, Coinbase: k.Addr, MainPubKey: k.PubComp, BlsPubKey: k.BlsPkB,
+			Token: new(big.Int).Mul(big.NewInt(cfg.Newcomer), params.StakeUint), Role: params.RoleSenator, Status: params.ValidatorOnline}
+		ublock := gu.ToBlock(db)
+		uh := types.CopyHeader(w.genesis.Header())
+		uh.Number, uh.ValRoot = big.NewInt(5), ublock.Header().ValRoot
+		w.chain.current = uh
+		uvld, err := w.chain.GetVldReader(uh.ValRoot)
+		if err != nil {
+			return err
+		}
+		w.urealIdx = make([]uint32, w.nv+2)
+		for i := 1; i <= w.nv+1; i++ {
+			idx, ok := uvld.GetValidators().GetIndex(w.keys[i].Addr)
+			if !ok {
+				return fmt.Errorf("fixture: validator %d not in the current set", i)
+			}
+			w.urealIdx[i] = uint32(idx)
+		}
+	}
 	if !cfg.CertRound {
 		return nil
 	}
@@ -494,6 +549,21 @@ func (w *world) honestQuorum() bool {
 	return sum >= q && (w.cfg.Tail || sum-min < q) && w.seats(w.cfg.Prop, w.cfg.ProtoP, 1, stepProposal, 1, false) > 0
 }
 
+// useats: real sortition of validator v (1..nv+1) with its stake in the CURRENT set and that set's total; -1 on panic.
+func (w *world) useats(v int, th uint64, i, s, d int) (j int) {
+	defer func() {
+		if r := recover(); r != nil {
+			j = -1
+		}
+	}()
+	st := big.NewInt(w.cfg.Newcomer)
+	if v <= w.nv {
+		st = w.stake(v, false)
+	}
+	_, _, jj := ucon.VrfSortition(w.vrfs[v], w.seeds[d], uint32(i), uint32(s), th, st, w.utotal)
+	return int(jj)
+}
+
 // honestCertQuorum: the honest certificate committee carries an exact quorum floor(0.585 * CertValThreshold).
 func (w *world) honestCertQuorum() bool {
 	sum := int64(0)
@@ -533,6 +603,24 @@ func (w *world) tableOf(cert bool) [][][][][]int {
 }
 
 func (w *world) table() {
+	if w.cfg.Newcomer > 0 {
+		w.useat = make([][][][][]int, w.nv+2)
+		for v := 1; v <= w.nv+1; v++ {
+			w.useat[v] = make([][][][]int, len(w.cfg.Ths)+1)
+			for t := 1; t <= len(w.cfg.Ths); t++ {
+				w.useat[v][t] = make([][][]int, nIdx+1)
+				for i := 1; i <= nIdx; i++ {
+					w.useat[v][t][i] = make([][]int, nSteps+1)
+					for s := 1; s <= nSteps; s++ {
+						w.useat[v][t][i][s] = make([]int, nSeeds+1)
+						for d := 1; d <= nSeeds; d++ {
+							w.useat[v][t][i][s][d] = w.useats(v, w.cfg.Ths[t-1], i, s, d)
+						}
+					}
+				}
+			}
+		}
+	}
 	w.seat = w.tableOf(false)
 	w.cseat = w.seat
 	if w.cfg.CertRound {
@@ -543,7 +631,7 @@ func (w *world) table() {
 // drop the dummy 0 entries: JSON arrays become 1-based TLA+ sequences
 func (w *world) seatJSON(tab [][][][][]int) []interface{} {
 	seat := make([]interface{}, 0, w.nv)
-	for v := 1; v <= w.nv; v++ {
+	for v := 1; v < len(tab); v++ {
 		var tv []interface{}
 		for t := 1; t <= len(w.cfg.Ths); t++ {
 			var iv []interface{}
@@ -577,7 +665,17 @@ func (w *world) positions(idxs []uint32) (pos []int, inv []int) {
 func (w *world) fixtureJSON() map[string]interface{} {
 	sidx, _ := w.positions(w.realIdx)
 	cidx, cpos := w.positions(w.crealIdx)
-	return map[string]interface{}{"name": w.cfg.Name, "vals": w.cfg.Vals, "protoV": w.cfg.ProtoV, "protoP": w.cfg.ProtoP, "ths": w.cfg.Ths,
+	_, spos := w.positions(w.realIdx)
+	uidx := []int{}
+	useat := []interface{}{}
+	if w.cfg.Newcomer > 0 {
+		for v := 1; v <= w.nv+1; v++ {
+			uidx = append(uidx, int(w.urealIdx[v])-w.cfg.Pad+1)
+		}
+		useat = w.seatJSON(w.useat)
+	}
+	return map[string]interface{}{"name": w.cfg.Name, "bls": !w.cfg.BlsOff, "hasCurrent": w.cfg.Newcomer > 0, "uidx": uidx, "useat": useat, "spos": spos,
+		"vals": w.cfg.Vals, "protoV": w.cfg.ProtoV, "protoP": w.cfg.ProtoP, "ths": w.cfg.Ths,
 		"voters": w.cfg.Voters, "prop": w.cfg.Prop, "total": w.total.Int64(), "seat": w.seatJSON(w.seat), "nidx": nIdx,
 		"pad": w.cfg.Pad, "salt": w.salt, "listIndex": w.realIdx[1 : w.nv+1], "tailVoter": w.tailVoter(),
 		"certRound": w.cfg.CertRound, "cvals": w.cfg.CVals, "protoC": w.cfg.ProtoC, "cvoters": append([]int{}, w.cfg.CVoters...), "ctotal": w.ctotal.Int64(),
@@ -628,6 +726,7 @@ type Desc struct {
 	CAgg   string  `json:"cagg"`
 	DeclC  uint64  `json:"declC"` // CertValThreshold declared by the certificate look-back header (chain context, itself author-declared)
 	CfIdx  int     `json:"cfidx"` // RoundIndex inside the Certificate field (the full verifier ignores it, VerifyAcHeader uses it)
+	Lb     int     `json:"lb"`    // 1 = the look-back validator trie cannot be read by the chain-based entry points
 	D      int     `json:"d"`     // forging depth (informational)
 }
 
@@ -676,8 +775,19 @@ func (w *world) voteList(vs []VoteD, agg string, cert bool, hashes [3]common.Has
 		if cert && v.Ls != 2 {
 			pos = w.crealIdx[v.V]
 		}
+		if !cert && v.Ls == 3 && w.urealIdx != nil {
+			pos = w.urealIdx[v.V] // built against the CURRENT validator set
+		}
 		sv := ucon.SingleVote{VoterIdx: pos, Votes: uint32(v.J)}
 		_, sv.Proof = w.proofFor(v.V, v.Cd, v.Cs, v.Ci, v.Pb)
+		if w.cfg.BlsOff && v.Sb != 0 {
+			// no BLS: the entry carries the voter's own ECDSA signature over the payload
+			sig, err := ucon.Sign(w.keys[v.V].Priv, payload(hashes[v.Sb], rounds[v.Sr], v.Si))
+			if err != nil {
+				return nil, nil, err
+			}
+			sv.Signature = sig
+		}
 		votes = append(votes, sv)
 		if v.Sb != 0 {
 			sigs = append(sigs, w.sign(v.V, v.Bk, payload(hashes[v.Sb], rounds[v.Sr], v.Si)))
@@ -922,6 +1032,10 @@ func (w *world) verify(d *Desc, all, ac, known, full bool) map[string]interface{
 	}
 	n := w.round.Uint64()
 	delete(w.chain.headers, n)
+	// the look-back validator trie is unreadable for the chain-based entry points (VerifySideChainHeader gets the reader from its caller)
+	lbRoot := w.genesis.Header().ValRoot
+	w.chain.gone[lbRoot] = d.Lb == 1
+	defer delete(w.chain.gone, lbRoot)
 	a1, c1 := w.verifyAll(ev, h, certHdr, certVld, "", true, all, all, ac)
 	// the same with a chain that already stores the honest header at this number: VerifyHeader / VerifyHeaders always, the others sampled
 	a2, c2 := false, false
